@@ -84,6 +84,9 @@ SS = [
     "with ctx() as _w{i}:\n    {S}", "with ctx(), ctx():\n    {S}", "async def f{i}():\n    async with ctx():\n        {S}",
     "async def f{i}():\n    async for _q in lst:\n        {S}", "match 1:\n    case 1 if flag:\n        {S}", "match 1:\n    case _:\n        {S}",
     "if flag:\n    if name:\n        {S}",
+    # a decorated function that is defined AGAIN further down under the same name (mypy merges the two into one overloaded
+    # definition and drops all but the last body from the tree)
+    "@deco(1)\ndef r{i}():\n    {S}\n@deco(2)\ndef r{i}():\n    pass",
 ]
 # blocks mypy decides statically (marked unreachable at semantic analysis): only the identity probe looks into them,
 # because type-dependent checks legitimately see no types there
